@@ -75,6 +75,42 @@ def oracle_alg(line, out):
     exp = f"su({2 ** N})"
     return None if out == exp else f"generation: classifier reports {out} for construct_universal_set({N},{k}), expected {exp}"
 
+# ---- the classifier clause with a RECORDER attached to the collection (the recording builder is a second implementation of the
+# reduction, with recorded defects of its own: property C11).  Where the exact model of that builder (Model/MorphRec.lean) says
+# the recorded classification of the universal set is su(2^N), the implementation must say so too.
+def algrec_handle(line):
+    from paulie.application import pauli_compiler as pc
+    from paulie.common.pauli_string_collection import PauliStringCollection
+    from paulie.helpers.recording import RecordGraph
+    import impl_classify
+    _, N, k = line.split(" ")
+    def f():
+        c = PauliStringCollection(pc.construct_universal_set(int(N), int(k)))
+        c.set_record(RecordGraph())
+        return impl_classify.algebra_text(str(c.get_algebra()))
+    try:
+        return impl_classify._with_timeout(lambda: guard(f))
+    except impl_classify.ReductionTimeout:
+        return "!ReductionTimeout"
+
+ALGREC = {"judged": 0, "drift-predicted-by-model": 0}
+def batch_oracle_algrec(lines, outs):
+    import impl_classify
+    sets = run_model(["uset " + " ".join(l.split(" ")[1:3]) for l in lines])
+    rep = run_model([f"classifyrec {u}" for u in sets])
+    res = []
+    for l, o, m in zip(lines, outs, rep):
+        N, k = int(l.split(" ")[1]), int(l.split(" ")[2])
+        exp = f"[su({2 ** N})]"
+        malg = fields(impl_classify.strip_meta(m)).get("alg") if not m.startswith("!") else None
+        if malg != exp or " INCOMPLETE" in m:
+            ALGREC["drift-predicted-by-model"] += 1
+            res.append(None); continue
+        ALGREC["judged"] += 1
+        res.append(None if o == exp else f"generation: with a recorder attached the classifier reports {o} for construct_universal_set({N},{k}), "
+                   f"expected {exp} (the model of the recording builder gives {exp})")
+    return res
+
 def known_match(stream, line, why):
     t = line.split(" ")
     if t[0] in ("gen", "alg") and why.startswith("generation:"):
@@ -141,6 +177,8 @@ def build_streams(rng, tier):
         Stream("helpers", helpers, h, None, tag=lambda l, o: l.split(" ")[0] + ":" + ("err" if o.startswith("!") else "ok")),
         Stream("generation-by-verified-closure", gens, lambda l: h("uset" + l[3:]), batch_oracle=batch_oracle_gen, tag=tag_gen, model=False),
         Stream("generation-by-classifier", algs, h, oracle_alg, tag=tag_gen, model=False),
+        Stream("generation-by-classifier-with-a-recorder-attached", [f"algrec {N} {k}" for N in range(3, (10 if th else 8) + 1) for k in range(2, N, 2)],
+               algrec_handle, batch_oracle=batch_oracle_algrec, tag=tag_gen, model=False),
     ]
 
 RULE = ("construct_universal_set compared with the model for every (N,k) with -1<=N<=10 (thorough 12), -1<=k<=N+1 (guard included), "
@@ -162,7 +200,11 @@ def main(tier):
 def replay(path):
     r = json.load(open(path)); line = r.get("line")
     t = line.split(" ")[0]
-    if t == "gen":
+    if t == "algrec":
+        out = algrec_handle(line); why = batch_oracle_algrec([line], [out])[0]
+    elif t == "usetre":
+        out = uset_after_edits(line); why = batch_oracle_after_edits([line], [out])[0]
+    elif t == "gen":
         out = impl_compiler.handle("uset" + line[3:]); why = batch_oracle_gen([line], [out])[0]
     elif t == "alg":
         out = impl_compiler.handle(line); why = oracle_alg(line, out)
